@@ -112,6 +112,26 @@ theorem null_sender_no_bounce_interleaved (hpre : (pre.map (·.1)).Nodup) (hrc :
     (hr : Reach fb (start pre rc nn) q) (id : Nat) (hn : q.nonNull id = false) : q.bounces id = [] :=
   (reach_inv hpre hrc hr).led.quiet id (by simp [hn])
 
+/-- **No recipient is bounced twice, and nobody who did not fail is bounced**, under every interleaving (when bounces are
+    produced): over all the bounces asked for a message, a recipient that failed for good is named exactly once, every other
+    accepted recipient never. -/
+theorem each_failed_recipient_bounced_once (hpre : (pre.map (·.1)).Nodup) (hrc : ∀ id ∈ pre.map (·.1), (rc id).Nodup) {q : QM.State}
+    (hr : QM.Reach fb (QM.start pre rc nn) q) (id : Nat) (r : List Rcpt) (ho : q.orig id = some r) (x : Rcpt) (hx : x ∈ r)
+    (hb : (fb && q.nonNull id) = true) :
+    ((q.bounces id).flatMap (·.rcpts)).count x = if x ∈ (q.failed id).map Prod.fst then 1 else 0 := by
+  have h := QM.reach_inv hpre hrc hr
+  have h1 := h.led.bcount id x hb
+  have h2 := h.led.ledger id r ho x
+  have h3 : r.count x = 1 := by
+    have hle := List.nodup_iff_count.mp (h.led.nodup id r ho) x
+    have := List.count_pos_iff.mpr hx
+    omega
+  rw [h1]
+  by_cases hf : x ∈ (q.failed id).map Prod.fst
+  · have := List.count_pos_iff.mpr hf
+    simp only [hf, if_true]; omega
+  · simp only [hf, if_false]; exact List.count_eq_zero_of_not_mem hf
+
 /-- **Whoever failed for good is named in a bounce quoting the reply it failed with**, under every interleaving. -/
 theorem failed_are_bounced_interleaved (hpre : (pre.map (·.1)).Nodup) (hrc : ∀ id ∈ pre.map (·.1), (rc id).Nodup) {q : QM.State}
     (hr : QM.Reach fb (QM.start pre rc nn) q) (id : Nat) (x : Rcpt) (r : ReplyId) (hx : (x, r) ∈ q.failed id)
